@@ -5,7 +5,7 @@ import ast
 
 from .. import rules
 from ..effects import Effects, elem_of, attr_of
-from ..model import Model, norm
+from ..model import Model, norm, own_returns
 from ..report import Ob, OK, VIOLATED, ERROR, INFO
 
 META = {
@@ -17,7 +17,7 @@ META = {
                    "operand. WRAPPERS: detach/to/cpu/cuda map each core through the like-named torch method in order with "
                    "device/dtype forwarded; numpy() is full() converted. UNRES on these methods.",
     "assumptions": ["bit-identity of torch.save/torch.load serialisation itself", "device transfers"],
-    "floors": {"KEYS": 4, "PICKLE-SAFE": 4, "CLONE-FRESH": 1, "WRAPPERS": 5},
+    "floors": {"KEYS": 3, "PICKLE-SAFE": 2, "CLONE-FRESH": 1, "WRAPPERS": 5},
 }
 ANCHORS = ["_extras.save", "_extras.load", "_tt_base.TT.clone", "_tt_base.TT.detach", "_tt_base.TT.to", "_tt_base.TT.cpu",
            "_tt_base.TT.numpy", "_tt_base.TT.cuda"]
@@ -29,6 +29,12 @@ def save_dicts(model: Model):
     for n in ast.walk(f.node):
         if isinstance(n, ast.Assign) and isinstance(n.value, ast.Dict):
             keys = {k.value: v for k, v in zip(n.value.keys, n.value.values) if isinstance(k, ast.Constant)}
+            # entries added afterwards: dct["M"] = ...
+            if isinstance(n.targets[0], ast.Name):
+                for m in ast.walk(f.node):
+                    if isinstance(m, ast.Assign) and isinstance(m.targets[0], ast.Subscript) and isinstance(m.targets[0].value, ast.Name) \
+                            and m.targets[0].value.id == n.targets[0].id and isinstance(m.targets[0].slice, ast.Constant):
+                        keys.setdefault(m.targets[0].slice.value, m.value)
             out.append((n, keys))
     return f, out
 
@@ -94,7 +100,7 @@ def rule_keys(model: Model):
                       "tn.save(dct, path)", "on every path the dictionary built there is handed to torch.save" if ok else
                       "a path through save ends without handing the dictionary it built to torch.save: nothing (or a stale dictionary) is written"))
     # load rebuilds through TT(list of cores)
-    rets = [n for n in ast.walk(lf.node) if isinstance(n, ast.Return)]
+    rets = [n for n in own_returns(lf.node)]
     ok = len(rets) == 1 and isinstance(rets[0].value, ast.Call) and model.resolve(lf.module, rets[0].value.func) == "torchtt._tt_base.TT" \
         and len(rets[0].value.args) == 1 and norm(rets[0].value.args[0]) == f"{loaded_name}['cores']" and not rets[0].value.keywords
     obs.append(Ob("KEYS", "_extras.load:KEYS:rebuild", OK if ok else VIOLATED, model.where(lf), norm(rets[0])[:100] if rets else "",
@@ -131,6 +137,23 @@ def _numpy_int_sources(model: Model):
     return False
 
 
+def _strip_identity_copies(v):
+    """list(X), tuple(X), X.copy(), X[:], [e for e in X] hold the very elements of X"""
+    for _ in range(4):
+        if isinstance(v, ast.Call) and isinstance(v.func, ast.Name) and v.func.id in ("list", "tuple") and len(v.args) == 1 and not v.keywords:
+            v = v.args[0]
+        elif isinstance(v, ast.Call) and isinstance(v.func, ast.Attribute) and v.func.attr == "copy" and not v.args:
+            v = v.func.value
+        elif isinstance(v, ast.Subscript) and isinstance(v.slice, ast.Slice) and v.slice.lower is None and v.slice.upper is None and v.slice.step is None:
+            v = v.value
+        elif isinstance(v, ast.ListComp) and len(v.generators) == 1 and not v.generators[0].ifs and isinstance(v.elt, ast.Name) \
+                and isinstance(v.generators[0].target, ast.Name) and v.elt.id == v.generators[0].target.id:
+            v = v.generators[0].iter
+        else:
+            break
+    return v
+
+
 def rule_pickle(model: Model):
     obs = []
     f, dicts = save_dicts(model)
@@ -145,8 +168,11 @@ def rule_pickle(model: Model):
                 continue
             k = f"_extras.save:PICKLE-SAFE:{'+'.join(sorted(keys))}:{key}"
             txt = norm(v)
-            is_list_attr = isinstance(v, ast.Attribute) and v.attr in ("R", "N", "M", "shape")
-            sanitised = isinstance(v, ast.ListComp) and isinstance(v.elt, ast.Call) and isinstance(v.elt.func, ast.Name) and v.elt.func.id == "int"
+            core = _strip_identity_copies(v)
+            is_list_attr = isinstance(core, ast.Attribute) and core.attr in ("R", "N", "M", "shape")
+            sanitised = (isinstance(v, ast.ListComp) and isinstance(v.elt, ast.Call) and isinstance(v.elt.func, ast.Name) and v.elt.func.id == "int") or \
+                (isinstance(v, ast.Call) and isinstance(v.func, ast.Name) and v.func.id in ("list", "tuple") and v.args and isinstance(v.args[0], ast.Call)
+                 and isinstance(v.args[0].func, ast.Name) and v.args[0].func.id == "map" and v.args[0].args and norm(v.args[0].args[0]) == "int")
             if not is_list_attr or sanitised or opt_out or not source:
                 why = "sanitised with int()" if sanitised else ("load opts out of weights_only" if opt_out else
                                                                 ("scalar/bool value" if not is_list_attr else "no numpy-integer source in rank_chop"))
@@ -214,7 +240,7 @@ def rule_wrappers(model: Model):
                       f"TT.{name} must map every core, in order, through c.{meth}(...) with its arguments forwarded "
                       f"(iteration ok: {ok_iter}, method ok: {ok_call}, arguments forwarded: {ok_fwd})"))
     f = model.func("_tt_base.TT.numpy")
-    rets = [n for n in ast.walk(f.node) if isinstance(n, ast.Return)]
+    rets = [n for n in own_returns(f.node)]
     txt = norm(rets[0].value).replace(" ", "") if rets else ""
     ok = txt in ("self.full().cpu().numpy()", "self.full().numpy()", "self.full().detach().cpu().numpy()")
     obs.append(Ob("WRAPPERS", "_tt_base.TT.numpy:WRAPPERS:full", OK if ok else VIOLATED, model.where(f), txt,
